@@ -83,6 +83,8 @@ theorem bitsToNat_lt (m : List Bool) : bitsToNat m < 2 ^ m.length := by
 
 theorem rtB (l : BLeaf) (n : Nat) (b rest : Bytes) (h : encB l n = some b) : decB l (b ++ rest) = .ok (n, rest) := by
   cases l with
+  | u8 => simp only [encB] at h; simp [decB, decInt_encInt 1 .le n b rest h]
+  | u16 => simp only [encB] at h; simp [decB, decInt_encInt 2 .le n b rest h]
   | u32 => simp only [encB] at h; simp [decB, decInt_encInt 4 .le n b rest h]
   | pg =>
     simp only [encB] at h
@@ -261,6 +263,145 @@ theorem rtUpdateMask (v : Val) (b rest : Bytes) (h : encUpdateMask v = some b) :
     · cases h
   · cases h
 
+theorem rtSlots (enc : Val → Option Bytes) (dec : Bytes → Except Err (Val × Bytes))
+    (hrt : ∀ v b rest, enc v = some b → dec (b ++ rest) = .ok (v, rest)) :
+    ∀ (vs : List Val) (m : List Bool) (b rest : Bytes), encSlots enc vs = some (m, b) →
+      decSlots dec m (b ++ rest) = .ok (vs, rest) ∧ m.length = vs.length
+  | [], m, b, rest, h => by
+    simp only [encSlots, Option.some.injEq, Prod.mk.injEq] at h
+    obtain ⟨h1, h2⟩ := h; subst h1; subst h2; simp [decSlots]
+  | v :: vs, m, b, rest, h => by
+    cases v with
+    | list es =>
+      cases es with
+      | nil =>
+        simp only [encSlots] at h
+        cases h1 : encSlots enc vs with
+        | none => simp [h1] at h
+        | some q =>
+          obtain ⟨m1, b1⟩ := q
+          simp only [h1, Option.some.injEq, Prod.mk.injEq] at h
+          obtain ⟨hm, hb⟩ := h; subst hm; subst hb
+          have ih := rtSlots enc dec hrt vs m1 b1 rest h1
+          simp [decSlots, ih.1, ih.2]
+      | cons e es' =>
+        cases es' with
+        | nil =>
+          simp only [encSlots] at h
+          cases h0 : enc e with
+          | none => simp [h0] at h
+          | some eb =>
+            cases h1 : encSlots enc vs with
+            | none => simp [h0, h1] at h
+            | some q =>
+              obtain ⟨m1, b1⟩ := q
+              simp only [h0, h1, Option.some.injEq, Prod.mk.injEq] at h
+              obtain ⟨hm, hb⟩ := h; subst hm; subst hb
+              have ih := rtSlots enc dec hrt vs m1 b1 rest h1
+              simp [decSlots, List.append_assoc, hrt e eb (b1 ++ rest) h0, ih.1, ih.2]
+        | cons _ _ => simp [encSlots] at h
+    | _ => simp [encSlots] at h
+
+theorem rtMask (w : Nat) (enc : Val → Option Bytes) (dec : Bytes → Except Err (Val × Bytes))
+    (hrt : ∀ v b rest, enc v = some b → dec (b ++ rest) = .ok (v, rest))
+    (v : Val) (b rest : Bytes) (h : encMask w enc v = some b) : decMask w dec (b ++ rest) = .ok (v, rest) := by
+  cases v with
+  | list slots =>
+    simp only [encMask] at h
+    split at h
+    · rename_i hl
+      cases h1 : encSlots enc slots with
+      | none => simp [h1] at h
+      | some q =>
+        obtain ⟨m, sb⟩ := q
+        simp only [h1] at h
+        cases h2 : encInt w .le (bitsToNat m) with
+        | none => simp [h2] at h
+        | some pb =>
+          simp only [h2, Option.map_some, Option.some.injEq] at h
+          subst h
+          have hs := rtSlots enc dec hrt slots m sb rest h1
+          have hd := decInt_encInt w .le (bitsToNat m) pb (sb ++ rest) h2
+          have hbits : natToBits (8 * w) (bitsToNat m) = m := by
+            have := natToBits_bitsToNat m
+            rwa [hs.2, hl] at this
+          simp only [decMask, List.append_assoc, hd, hbits, hs.1]
+    · cases h
+  | _ => simp [encMask] at h
+
+theorem rtGear (v : Val) (b rest : Bytes) (h : encGear v = some b) : decGear (b ++ rest) = .ok (v, rest) := by
+  unfold encGear at h
+  split at h
+  · rename_i item em fs
+    cases h0 : encB .u32 item with
+    | none => simp [h0] at h
+    | some a =>
+      cases h1 : encMask 2 (tupleOf [.u16]) em with
+      | none => simp [h0, h1] at h
+      | some mb =>
+        cases h2 : encBs gearTail fs with
+        | none => simp [h0, h1, h2] at h
+        | some c =>
+          simp only [h0, h1, h2, Option.some.injEq] at h
+          subst h
+          have d0 := rtB .u32 item a (mb ++ c ++ rest) h0
+          have d1 := rtMask 2 (tupleOf [.u16]) (decTuple [.u16]) (fun v b' rest' hv => rtTuple [.u16] v b' rest' hv) em mb (c ++ rest) h1
+          have d2 := rtBs gearTail fs c rest h2
+          simp only [List.append_assoc] at d0 ⊢
+          simp only [decGear, d0, d1, d2]
+  · cases h
+
+theorem rtNamedGuid (v : Val) (b rest : Bytes) (h : encNamedGuid v = some b) : decNamedGuid (b ++ rest) = .ok (v, rest) := by
+  unfold encNamedGuid at h
+  split at h
+  · rename_i g
+    split at h
+    · rename_i hg
+      subst hg
+      simp [decNamedGuid, decInt_encInt 8 .le 0 b rest h]
+    · cases h
+  · rename_i g s
+    split at h
+    · rename_i hg
+      cases h0 : encInt 8 .le g with
+      | none => simp [h0] at h
+      | some gb =>
+        simp only [h0, Option.map_some, Option.some.injEq] at h
+        subst h
+        have hd := decInt_encInt 8 .le g gb (s ++ [0] ++ rest) h0
+        have hz := splitAtZero_append s rest hg.2
+        simp only [List.append_assoc, List.singleton_append] at hd ⊢
+        simp only [decNamedGuid, hd, hg.1, if_false, hz]
+    · cases h
+  · cases h
+
+theorem rtVirp (v : Val) (b rest : Bytes) (h : encVirp v = some b) : decVirp (b ++ rest) = .ok (v, rest) := by
+  unfold encVirp at h
+  split at h
+  · rename_i id
+    split at h
+    · rename_i hg
+      subst hg
+      simp [decVirp, decInt_encInt 4 .le 0 b rest h]
+    · cases h
+  · rename_i id sf
+    split at h
+    · rename_i hg
+      cases h0 : encInt 4 .le id with
+      | none => simp [h0] at h
+      | some a =>
+        cases h1 : encInt 4 .le sf with
+        | none => simp [h0, h1] at h
+        | some c =>
+          simp only [h0, h1, Option.some.injEq] at h
+          subst h
+          have d0 := decInt_encInt 4 .le id a (c ++ rest) h0
+          have d1 := decInt_encInt 4 .le sf c rest h1
+          simp only [List.append_assoc] at d0 ⊢
+          simp only [decVirp, d0, hg, if_false, d1]
+    · cases h
+  · cases h
+
 theorem rtPrim (name : String) (v : Val) (b rest : Bytes) (h : encPrim name v = some b) :
     decPrim name (b ++ rest) = .ok (v, rest) := by
   unfold encPrim at h
@@ -289,6 +430,14 @@ theorem rtPrim (name : String) (v : Val) (b rest : Bytes) (h : encPrim name v = 
   | updateMask =>
     simp only [hk] at h
     simp only [rtUpdateMask v b rest h]
+  | mask w ls =>
+    simp only [hk] at h
+    simp only [rtMask w (tupleOf ls) (decTuple ls) (fun v b' rest' hv => rtTuple ls v b' rest' hv) v b rest h]
+  | gear =>
+    simp only [hk] at h
+    simp only [rtMask 4 encGear decGear rtGear v b rest h]
+  | namedGuid => simp only [hk] at h; simp only [rtNamedGuid v b rest h]
+  | virp => simp only [hk] at h; simp only [rtVirp v b rest h]
   | other => cases v <;> simp [hk] at h
 
 /-- **leaf round trip**: a leaf decodes its own encoding and leaves the rest of the stream untouched -/
